@@ -197,6 +197,21 @@ def fakes(S, on_event=None):
             ev("mutex", me, self.lock)
             return notified
 
+        def wait_for(self, predicate, timeout=None):
+            # as threading.Condition.wait_for, on the virtual clock
+            end = None if timeout is None else S.now + max(timeout, 0)
+            result = predicate()
+            while not result:
+                if end is not None:
+                    left = end - S.now
+                    if left <= 0:
+                        break
+                    self.wait(left)
+                else:
+                    self.wait(None)
+                result = predicate()
+            return result
+
         def notify(self, n=1):
             if self.lock.owner != S.cur:
                 raise RuntimeError("cannot notify on un-acquired lock")
